@@ -26,7 +26,7 @@ TOK = "hypnotoad/cases/tokamak.py"
 
 
 def T(mod, n):
-    return "".join(mod.text(n).split())
+    return mod.code(n)
 
 
 class CritEx(Extractor):
